@@ -356,9 +356,7 @@ func refArith(op string) func(args []cty.Value) expect {
 			case a.Sign() == 0 && b.Sign() == 0:
 				return failure("zero divided by zero", class)
 			case b.Sign() == 0:
-				if isNegZero(args[1]) {
-					return free("division-by-negative-zero") // F-14, classified under C02
-				}
+				// documented on Value.Divide: an exactly zero divisor gives the infinity with the sign of the receiver
 				return expectExact(model.Num{Inf: a.Sign()}, class)
 			case a.IsInf():
 				return expectExact(model.Num{Inf: a.Sign() * b.Sign()}, class)
@@ -371,61 +369,115 @@ func refArith(op string) func(args []cty.Value) expect {
 			if a.IsInf() || b.IsInf() || b.Sign() == 0 {
 				return free("modulo-zero-or-infinite-operand") // special cases belong to C02 (Value.Modulo)
 			}
-			q := new(big.Rat).Quo(a.R, b.R)
-			k := new(big.Rat).SetInt(truncRat(q))
-			e := new(big.Rat).Sub(a.R, k.Mul(k, b.R))
-			// a - b*trunc(a/b) suffers cancellation, so the tolerance is relative to |a|;
-			// exactness is demanded for integer operands whose quotient is far below the precision.
-			small := a.R.IsInt() && b.R.IsInt() && q.Num().BitLen()-q.Denom().BitLen() < int(p)-2
-			return expect{kind: expValue, val: ratVal(e), class: class, check: func(got cty.Value) string {
-				g, why := gotNum(got)
-				if why != "" {
-					return why
-				}
-				if !g.IsInf() && g.R.Cmp(e) == 0 {
-					return ""
-				}
-				if small {
-					return fmt.Sprintf("exact value %s, expected exactly %s (integer operands, quotient below 2^%d)", g, ratShort(e), p-2)
-				}
-				return tolOnly(g, e, p, a.R)
-			}}
+			return refModulo(args[0], args[1], class)
 		}
 		panic("unknown op " + op)
 	}
 }
 
-func tolOnly(g model.Num, exact *big.Rat, p uint, scale *big.Rat) string {
-	if g.IsInf() {
-		return fmt.Sprintf("infinite result, expected %s", ratShort(exact))
-	}
-	diff := new(big.Rat).Sub(g.R, exact)
-	diff.Abs(diff)
-	tol := new(big.Rat).Abs(scale)
-	tol.Mul(tol, new(big.Rat).SetFrac(big.NewInt(1), new(big.Int).Lsh(big.NewInt(1), p-2)))
-	if diff.Cmp(tol) > 0 {
-		df, _ := diff.Float64()
-		tf, _ := tol.Float64()
-		return fmt.Sprintf("|result-exact| = %.6g exceeds the tolerance %.6g (p=%d); exact = %s", df, tf, p, ratShort(exact))
-	}
-	return ""
+func fitsBits(r *big.Rat, p uint) bool { return r.IsInt() && sigBits(r.Num()) <= p }
+
+// refModulo is the C02 oracle for Modulo on a finite receiver and a finite non-zero divisor:
+// r = a - b*trunc(a/b). Exact when r is an integer that fits the operand precision; otherwise
+// within 2^-(p-2) of max(|a|,|b|); when the exact quotient is within operand precision of an
+// integer, the truncation may resolve to either neighbour; when the divisor itself is below the
+// tolerance only the magnitude bound |result| <= |b| can be demanded.
+func refModulo(av, bv cty.Value, class string) expect {
+	a, b := numOf(av).R, numOf(bv).R
+	p := minPrec(av, bv)
+	quo := new(big.Rat).Quo(a, b)
+	q := new(big.Int).Quo(quo.Num(), quo.Denom())
+	r := new(big.Rat).Sub(a, new(big.Rat).Mul(b, new(big.Rat).SetInt(q)))
+	return expect{kind: expValue, val: ratVal(r), class: class, check: func(got cty.Value) string {
+		gn, why := gotNum(got)
+		if why != "" {
+			return why
+		}
+		if gn.IsInf() {
+			return "finite remainder expected, got an infinity"
+		}
+		g := gn.R
+		if g.Cmp(r) == 0 {
+			return ""
+		}
+		absB := new(big.Rat).Abs(b)
+		scale := new(big.Rat).Abs(a)
+		if absB.Cmp(scale) > 0 {
+			scale = absB
+		}
+		zero := new(big.Rat)
+		vacuous := closeAbs(absB, zero, scale, p)
+		absR := new(big.Rat).Abs(r)
+		nearInteger := !vacuous && r.Sign() != 0 && (closeAbs(r, zero, scale, p) || closeAbs(absR, absB, scale, p))
+		altMatches := func() bool {
+			for _, s := range []int64{1, -1} {
+				alt := new(big.Rat).Mul(b, big.NewRat(s, 1))
+				alt.Sub(r, alt)
+				if closeAbs(g, alt, scale, p) {
+					return true
+				}
+			}
+			return false
+		}
+		detail := fmt.Sprintf("exact trunc(a/b) has %d bits, exact remainder %s, p=%d", q.BitLen(), ratShort(r), p)
+		if fitsBits(r, p) {
+			if nearInteger && altMatches() {
+				return ""
+			}
+			return "exact integer remainder expected (it fits in the operand precision); " + detail
+		}
+		if new(big.Rat).Abs(g).Cmp(absB) > 0 {
+			return "result magnitude exceeds the divisor; " + detail
+		}
+		if vacuous || closeAbs(g, r, scale, p) || (nearInteger && altMatches()) {
+			return ""
+		}
+		return "result differs from a - b*trunc(a/b) beyond operand precision; " + detail
+	}}
 }
 
+// closeRel reports |a-b| <= 2^-(p-2) * |b| (the C02 tolerance).
+func closeRel(a, b *big.Rat, p uint) bool {
+	return closeAbs(a, b, new(big.Rat).Abs(b), p)
+}
+
+// closeAbs reports |a-b| <= 2^-(p-2) * scale.
+func closeAbs(a, b, scale *big.Rat, p uint) bool {
+	d := new(big.Rat).Sub(a, b)
+	d.Abs(d)
+	if d.Sign() == 0 {
+		return true
+	}
+	if p < 3 {
+		p = 3
+	}
+	d.Mul(d, new(big.Rat).SetInt(new(big.Int).Lsh(big.NewInt(1), p-2)))
+	return d.Cmp(scale) <= 0
+}
+
+// refCompare: lt/gt compare exactly; lte/gte are documented (as in C02) as "lt/gt OR equals",
+// and documented number equality is "same shortest decimal text": two non-integers that are
+// equal in that sense and lie within operand precision of each other are a tie.
 func refCompare(op string) func(args []cty.Value) expect {
 	return func(args []cty.Value) expect {
-		c := numOf(args[0]).Cmp(numOf(args[1]))
+		an, bn := numOf(args[0]), numOf(args[1])
+		c := an.Cmp(bn)
+		class := kinds(args[0], args[1])
 		var res bool
 		switch op {
 		case "lt":
 			res = c < 0
-		case "lte":
-			res = c <= 0
 		case "gt":
 			res = c > 0
-		case "gte":
-			res = c >= 0
+		case "lte", "gte":
+			res = c == 0 || (op == "lte" && c < 0) || (op == "gte" && c > 0)
+			if !res && !an.IsInf() && !bn.IsInf() && model.NumEqualDoc(args[0].AsBigFloat(), args[1].AsBigFloat()) &&
+				closeRel(an.R, bn.R, minPrec(args[0], args[1])) {
+				res = true
+				class += ",documented-equality-tie"
+			}
 		}
-		return value(cty.BoolVal(res), kinds(args[0], args[1]))
+		return value(cty.BoolVal(res), class)
 	}
 }
 
